@@ -10,7 +10,7 @@ use serde_json::{json, Value};
 pub static DEF: PropDef = PropDef {
     id: "C15",
     title: "Control messages: all-or-nothing acceptance, complete ordered error list",
-    rule: "Control messages assembled from k = 0..12 well-delimited AVP records of which a chosen subset J is made individually undecodable, each bad record carrying an identifying value: unknown attribute type, \
+    rule: "Control messages assembled from k = 0..12 well-delimited AVP records (and, in 4 % of the cases, long bodies of 33..~700 records with up to 512 bad ones carrying pairwise different identifying values) of which a chosen subset J is made individually undecodable, each bad record carrying an identifying value: unknown attribute type, \
 vendor id != 0, payload below the kind's minimum, invalid UTF-8 (kinds 8, 21, 22, 23, 12, 1), unknown message-type code in a non-first Message Type, bad error-type code, bad proxy-authen type. The first record \
 is a valid Message Type (main case), absent (ZLB), a different valid kind, or undecodable; optionally a final record with an unusable length field (< 6 or beyond the region) followed by junk. \
 Oracle: Ok iff J is empty and the first record is a Message Type (or k = 0), and then the value equals the good records' values; otherwise Err with a non-empty list; with a valid first Message Type the list \
@@ -140,7 +140,92 @@ fn gen_bad(t: &mut Tape, w: &mut Vec<u8>, cx: &mut Cx) -> Expect {
     }
 }
 
+/// long bodies: 33 .. ~700 records, bad ones with pairwise different identifying values (unknown types 40, 41, ... or vendor
+/// ids 1, 2, ...), the number of bad records sometimes exactly 8, 9, 64, 65, 255, 256, 257 or 512
+fn check_many(t: &mut Tape, cx: &mut Cx) -> Res {
+    cx.eval();
+    let n_bad = match t.below(4) {
+        0 => [8usize, 9, 16, 17, 64, 65, 255, 256, 257, 512][t.below(10)],
+        _ => 1 + t.below(120),
+    };
+    let n_good = match t.below(3) {
+        0 => 0,
+        1 => 1 + t.below(40),
+        _ => n_bad / 2 + t.below(200),
+    };
+    let vendor_mode = t.chance(40);
+    let total = n_bad + n_good;
+    // positions of the bad records: spread deterministically from two tape octets
+    let step = 1 + t.below(7);
+    let phase = t.below(total.max(1));
+    let mut is_bad = vec![false; total];
+    let mut placed = 0;
+    let mut p = phase;
+    while placed < n_bad {
+        if !is_bad[p % total] {
+            is_bad[p % total] = true;
+            placed += 1;
+            p += step;
+        } else {
+            p += 1;
+        }
+    }
+    let mut body = Vec::new();
+    let mut good: Vec<SAvp> = vec![SAvp { attr: 0, hidden: false, body: Body::U16(MSG_TYPES[t.below(14)]) }];
+    encode_avp(&good[0], &mut body);
+    let mut expected: Vec<DecodeError> = Vec::new();
+    for (i, bad) in is_bad.iter().enumerate() {
+        if *bad {
+            let id = (expected.len() + 1) as u16;
+            if vendor_mode {
+                rec(&mut body, 1, id, 7, &[0x41]);
+                expected.push(DecodeError::UnsupportedVendorId(id));
+            } else {
+                rec(&mut body, 1, 0, 39 + id, &[]);
+                expected.push(DecodeError::UnknownAvp(39 + id));
+            }
+        } else {
+            let a = SAvp { attr: 9, hidden: false, body: Body::U16(i as u16) };
+            encode_avp(&a, &mut body);
+            good.push(a);
+        }
+    }
+    let msg = control_around(t, &body);
+    let render = || json!({"input": hex_short(&msg), "records": total + 1, "bad_records": n_bad, "bad_kind": if vendor_mode { "vendor id 1.." } else { "unknown type 40.." }});
+    cx.stage(STAGE_ARMED);
+    let r = crate_decode(&msg, STRICT);
+    cx.stage(STAGE_SETUP);
+    match r {
+        Caught::Ok(Err(errs)) => {
+            if errs != expected {
+                let first = errs.iter().zip(expected.iter()).position(|(a, b)| a != b).unwrap_or(errs.len().min(expected.len()));
+                let mut v = render();
+                v["errors_reported"] = json!(errs.len());
+                v["first_difference_at"] = json!(first);
+                v["reported_there"] = json!(format!("{:?}", errs.get(first)));
+                v["expected_there"] = json!(format!("{:?}", expected.get(first)));
+                return fail(format!("{} errors reported for {} undecodable records, or not in wire order (first difference at #{})", errs.len(), expected.len(), first), v);
+            }
+        }
+        Caught::Ok(Ok(_)) => return fail(format!("a control message with {} undecodable records was accepted", n_bad), render()),
+        Caught::Panic(p) => return fail(format!("decoder panicked: {}", p.short()), render()),
+        Caught::Monitor(_) => return fail("unexpected monitor payload", render()),
+    }
+    cx.nontrivial(&msg);
+    cx.class(match n_bad {
+        0..=8 => "long body: <= 8 bad records",
+        9..=64 => "long body: 9..64 bad records",
+        65..=255 => "long body: 65..255 bad records",
+        _ => "long body: >= 256 bad records",
+    });
+    cx.sample("long-bodies", || json!({"records": total + 1, "bad_records": n_bad, "input": hex_short(&msg), "family": "long-bodies"}));
+    Ok(())
+}
+
 fn check(t: &mut Tape, cx: &mut Cx) -> Res {
+    if t.chance(4) {
+        return check_many(t, cx);
+    }
     cx.eval();
     let k = match t.below(10) {
         0 => 0,
